@@ -7,6 +7,7 @@
 //     call in progress and the scripted action in progress; a 20 s watchdog covers everything else);
 //   - what the scripted reads returned (e.g. a subscriber of the derived value reads the value it was notified of);
 //   - the property's defining function after every top-level call (same oracles as the lockstep family).
+//
 // Which (callback site, scripted call) pairs are demanded is the behaviour of the unchanged code, learnt with
 // `hx-c14 reent --probe`: the pairs that park there (table reBlocked, each with the lock it waits for) are run once per
 // run as observations and never combined into demanded scenarios; every other pair must complete.
@@ -150,9 +151,11 @@ type reKind struct {
 	name  string
 	sites []string
 	acts  []string
-	gen   func(r *vx.Rng, sc *reScenario)          // setup + history (site and script are already chosen)
-	act   func(r *vx.Rng, k string) reAct          // parameters of one scripted call
+	gen   func(r *vx.Rng, sc *reScenario)            // setup + history (site and script are already chosen)
+	act   func(r *vx.Rng, k string) reAct            // parameters of one scripted call
 	run   func(sc *reScenario, p *reProgress) string // returns the first oracle failure
+	// okNext (optional): may a call of kind k follow the calls already in the script? (order-dependent baseline)
+	okNext func(site string, acts []reAct, k string) bool
 }
 
 // reBlocked: (kind/site/action) pairs that park on the UNCHANGED code (hx-c14 reent --probe, 2026-10-02, /repo 83b7f6c),
@@ -977,6 +980,21 @@ var reWG = &reKind{
 		}
 	},
 	run: reRunWG,
+	// unchanged code: Event.Trigger = Set(true) takes the event's updateOrderMutex even when the event is already
+	// triggered, so an OnTrigger handler that re-fills the group and empties it again (Add(x); Done(x)) re-enters
+	// Trigger on the event that is notifying and parks. A Done in the handler is demanded only when no Add precedes it
+	// (the group is empty when the handler starts, such a Done removes nothing).
+	okNext: func(site string, acts []reAct, k string) bool {
+		if site != "trig" || k != "done" {
+			return true
+		}
+		for _, a := range acts {
+			if a.K == "add" {
+				return false
+			}
+		}
+		return true
+	},
 }
 
 // ---------------------------------------------------------------------------------------------------------------
@@ -1301,8 +1319,23 @@ func reOne(st *vx.Stats, k *reKind, sc *reScenario, demanded bool) (outcome stri
 	return outcome
 }
 
+// sigSortedSetExtremeSubscriber: listed known finding (KNOWN_FINDINGS.txt), reproduced by a directed scenario.
+const sigSortedSetExtremeSubscriber = "sortedset-extreme-subscriber-reads-sorted-view"
+
 func reentAll(g *gen, n int) {
 	st, r := g.st, g.r
+	// known finding, directed: SortedSet{1,2,3} with equal weights, a HeaviestElement subscriber that reads Ascending();
+	// weight(2).Set(3) makes 2 the heaviest: heaviestElement.Set runs under sortedSet.mutex (write), the subscriber
+	// read-locks it again
+	{
+		sc := &reScenario{Kind: "ss", Site: "hsub", Acts: []reAct{{K: "asc"}}, P: []int{0}, Ins0: make([]int, ssUniverse),
+			SS: []ssOp{{K: "weight", E: 2, V: 3}}}
+		outcome, _, _ := reGuard(func(p *reProgress) string { return reRunSS(sc, p) })
+		st.Count("reent:directed-known-finding:" + outcome)
+		if outcome != "ok" {
+			st.Known = append(st.Known, sigSortedSetExtremeSubscriber)
+		}
+	}
 	// EvictionState: directed + random tree scripts (correspondence cases)
 	for _, h := range evrDirected() {
 		reEV(g, h, "directed")
@@ -1331,10 +1364,25 @@ func reentAll(g *gen, n int) {
 			}
 			sc := &reScenario{Kind: k.name, Site: site}
 			for j := 1 + rr.Intn(3); j > 0; j-- {
-				sc.Acts = append(sc.Acts, k.act(rr, vx.Pick(rr, al)))
+				if a := vx.Pick(rr, al); k.okNext == nil || k.okNext(site, sc.Acts, a) {
+					sc.Acts = append(sc.Acts, k.act(rr, a))
+				}
+			}
+			if len(sc.Acts) == 0 {
+				continue
 			}
 			k.gen(rr, sc)
 			reOne(st, k, sc, true)
+		}
+		if k.name == "wg" {
+			sc := &reScenario{Kind: "wg", Site: "trig", Acts: []reAct{{K: "add", Es: []int{1}}, {K: "done", Es: []int{1}}},
+				WG: []wgOp{{"add", []int{2}}, {"done", []int{2}}}}
+			if out := reOne(st, k, sc, false); out != "skipped" {
+				if out != "ok" {
+					out = "parks"
+				}
+				st.Count("reent-observed-not-demanded:wg/trig/done-after-add:" + out)
+			}
 		}
 		// observations: the pairs that park on the unchanged code, once each
 		keys := []string{}
